@@ -30,6 +30,12 @@ func bigv(mode string) Variant {
 		Amts: []sdkmath.Int{i(1), mc.Big(64).AddRaw(1), mc.Big(96).SubRaw(1)}, Params: false, SubSecond: true}
 }
 
+func vestingEscrow(mode string) Variant {
+	v := small(mode)
+	v.Name, v.VestingEscrow, v.Params = "vesting-escrow", true, false
+	return v
+}
+
 const rule = "state in which both fixture pools are live after at least one operation; distinct by canonical hash of coinswap+bank stores"
 
 // PartsC01: kernel lattice + stateful searches.
@@ -38,6 +44,8 @@ func PartsC01() []mc.Part {
 		KernelPart(),
 		mc.ExplorePartC("small-reserves", mc.WithRestart(New(small("C01")), "coinswap"), 3, 4, false, rule, &mc.ConfOpts{Stores: []string{"coinswap"}, SkipDenoms: map[string]bool{"stake": true}, MaxPaths: 150}),
 		mc.ExplorePart("big-reserves", New(bigv("C01")), 3, 4, false, rule),
+		// the first pool's escrow is a vesting account with locked standard coins: they are reserves like any other
+		mc.ExplorePart("vesting-escrow", New(vestingEscrow("C01")), 2, 3, false, rule),
 	}
 }
 
